@@ -1798,6 +1798,55 @@ const SPECS: &[Spec] = &[
                signer's error) is the parameter `revoke_key`; each arm's `Ok(vec![ … ?, … ])` is mapped as a whole (verbatim) \
                to the sequence of its `?`s; WHICH arm a variant takes is translated.",
     },
+    Spec {
+        id: "C12",
+        file: "src/server/pubd/manager.rs",
+        ty: "RepositoryManager",
+        method: "rfc8181",
+        lean: "RepositoryManager.rfc8181",
+        sig: "&self,publisher_handle:PublisherHandle,msg_bytes:Bytes,krill:&KrillRuntime->KrillResult<Bytes>",
+        binders: "{H CMS MSG Q B ε : Type} (publisher_handle : H) (decode_and_validate : H → Except ε CMS) (into_message : CMS → MSG) \
+                  (as_query : MSG → Except ε Q) (is_list : Q → Bool) (process : H → Q → Except ε MSG) (error_msg : ε → MSG) \
+                  (create_response : MSG → Except ε B) (wrap_err : ε → ε) (log_received : Except ε Unit) (log_reply : B → Except ε Unit)",
+        args: "publisher_handle decode_and_validate into_message as_query is_list process error_msg create_response wrap_err log_received log_reply",
+        ret: "Except ε B",
+        num: Num::Nat,
+        names: &[
+            ("self.access.decode_and_validate(&publisher_handle,&msg_bytes)", "(decode_and_validate publisher_handle)"),
+            ("cms.into_message()", "(into_message cms)"),
+            ("message.as_query()", "(as_query message)"),
+            ("query==publication::Query::List", "(is_list query)"),
+            ("self.rfc8181_message(&publisher_handle,query,krill)", "(process publisher_handle query)"),
+            ("response_result.is_err()", "(match response_result with | Except.error _ => true | Except.ok _ => false)"),
+            ("e.to_rfc8181_error_code()", "e"),
+            ("publication::ReportError::with_code(error_code)", "error_code"),
+            ("publication::ErrorReply::for_error(report_error)", "report_error"),
+            ("publication::Message::error(error_reply)", "(error_msg error_reply)"),
+            ("self.access.create_response(response,krill.signer(),)", "(create_response response)"),
+            ("?.to_bytes()", "id"),
+            ("cms_logger.received(&msg_bytes)", "log_received"),
+            ("cms_logger.reply(&response_bytes)", "(log_reply response_bytes)"),
+        ],
+        methods: &[],
+        state_ty: &[],
+        elem_ty: "",
+        enums: &[],
+        structs: &[],
+        types: &[],
+        opaque_lets: &[("cms_logger", "CmsLogger::for_rfc8181_rcvd(krill.config().rfc8181_log_dir.as_ref(),&publisher_handle,)")],
+        effects: &[],
+        wrapper: None,
+        cond_effects: &[],
+        self_fields: &[],
+        mut_params: &[],
+        extern_enums: &[],
+        tail: None,
+        note: "publisher handles `H`, the validated CMS `CMS`, protocol messages `MSG`, queries `Q`, reply bytes `B`, errors `ε` are \
+               abstract: `decode_and_validate` (RepositoryAccessProxy: decode, look the publisher NAMED IN THE URL up, validate under \
+               its registered identity certificate), `rfc8181_message` (`process`: list / publish for THAT publisher), \
+               `create_response` (sign with the server's identity key) are parameters; an error of `process` becomes an error \
+               REPLY (`error_msg`, the error code is the error), every other error is returned; `map_err` only rewrites the text.",
+    },
 ];
 
 type R = Result<String, String>;
@@ -2382,6 +2431,25 @@ impl<'a> Tr<'a> {
                 }
                 if name == "tail" {
                     return Err("local named `tail` (reserved by the loop translation)".into());
+                }
+                // `let x = e?.m();` where the name map has the key `?.m()` (a conversion of the unwrapped value: `to_bytes`)
+                if let syn::Expr::MethodCall(mc) = &*init.expr {
+                    if let (syn::Expr::Try(t), true) = (&*mc.receiver, mc.args.is_empty()) {
+                        if let Some(conv) = self.name(&format!("?.{}()", mc.method)) {
+                            if mutable || self.seen_loop || self.in_loop || ctl != Ctl::Fn {
+                                return Err(format!("`let {name} = …?.{}()` that is mutable, in a loop function or inside a value block", mc.method));
+                            }
+                            let scrut = self.expr(&t.expr, ind + 2)?;
+                            self.locals.push((name.clone(), false));
+                            let r = self.seq(rest, ctl, ind + 4)?;
+                            return Ok(format!(
+                                "{p}match {scrut} with\n{p}| Except.error err_q => Except.error err_q\n{p}| Except.ok {n}_q =>\n{p4}let {n} := {conv} {n}_q\n{r}",
+                                n = lean_ident(&name),
+                                p = pad(ind),
+                                p4 = pad(ind + 4)
+                            ));
+                        }
+                    }
                 }
                 if let syn::Expr::Try(t) = &*init.expr {
                     // `let x = e?;` ↦ `match e with | .error err => .error err | .ok x => rest`
